@@ -6,22 +6,25 @@ import BddVerif.Props.C09F64
 #print axioms B.Props.C09.f64_mulPow2_exact
 #print axioms B.Props.C09.f64_bits_roundtrip
 #print axioms B.Props.C09.exactCard_is_count
+#print axioms B.Props.C09.pathDepth_le
 #print axioms B.Props.C09.cardF64_shape
+#print axioms B.Props.C09.cardF64_good
 #print axioms B.Props.C09.cardinality_f64_total
 #print axioms B.Props.C09.cardinality_f64_fin
 #print axioms B.Props.C09.cardinality_f64_inf
 #print axioms B.Props.C09.cardinality_f64_spec
 #print axioms B.Props.C09.cardinality_f64_spec_n
+#print axioms B.Props.C09.cardinality_f64_spec_size
 #print axioms B.Props.C09.cardinality_f64_overflow
-#print axioms B.Props.C09.cardinality_f64_zero_sound
-#print axioms B.Props.C09.cardinality_f64_zero_complete
-#print axioms B.Props.C09.cardinality_f64_unsat_noncanonical_inf
-#print axioms B.Props.C09.cardinality_f64_zero_iff_canonical
+#print axioms B.Props.C09.cardinality_f64_zero_iff
+#print axioms B.Props.C09.cardinality_f64_unguarded_defect
 #print axioms B.Props.C09.f64_ofNat_small
 #print axioms B.Props.C09.cardinality_f64_exact_small
 #print axioms B.Props.C09.cardinality_f64_exact_le52
 #print axioms B.Count.cardGoF_eq_fast
 #print axioms B.Count.cardFF_good
+#print axioms B.Count.cardFF_good_depth
+#print axioms B.Count.depthF_le_size
 #print axioms B.Count.cardFF_exact
 #print axioms B.Count.cardCacheF_root
 #print axioms B.F64.Good.int
